@@ -118,3 +118,83 @@ def se_century_rule(v, date, today):
 
 
 CENTURY_RULES = {'stdnum.se.personnummer': se_century_rule}
+
+
+# ---- full birth year as encoded by the digits of the number (century digit / month offset / sign), from the
+# published layout of each number; None = the rule does not apply to this number
+def _yy(v, a):
+    return int(v[a:a + 2])
+
+
+def _dk(v):
+    c, yy = int(v[6]), _yy(v, 4)
+    if c <= 3:
+        return 1900 + yy
+    if c == 4 or c == 9:
+        return 2000 + yy if yy <= 36 else 1900 + yy
+    return 2000 + yy if yy <= 57 else 1800 + yy
+
+
+def _ee(v):
+    g = int(v[0])
+    return 1800 + ((g - 1) // 2) * 100 + _yy(v, 1) if 1 <= g <= 8 else None
+
+
+def _ro(v):
+    s = int(v[0])
+    base = {1: 1900, 2: 1900, 3: 1800, 4: 1800, 5: 2000, 6: 2000}.get(s)
+    return base + _yy(v, 1) if base else None
+
+
+def _si(v):
+    y = int(v[4:7])
+    return 1000 + y if y >= 800 else 2000 + y
+
+
+def _bg(v):
+    mm = _yy(v, 2)
+    base = 1900 if mm <= 12 else 1800 if 21 <= mm <= 32 else 2000 if 41 <= mm <= 52 else None
+    return base + _yy(v, 0) if base else None
+
+
+def _pl(v):
+    mm = _yy(v, 2)
+    base = {0: 1900, 1: 2000, 2: 2100, 3: 2200, 4: 1800}.get((mm - 1) // 20) if 1 <= (mm - 1) % 20 + 1 <= 12 else None
+    return base + _yy(v, 0) if base else None
+
+
+def _lv(v):
+    if len(v) != 11 or v[0] > '3':
+        return None
+    base = {0: 1800, 1: 1900, 2: 2000}.get(int(v[6]))
+    return base + _yy(v, 4) if base else None
+
+
+def _fi(v):
+    sign = v[6]
+    base = 1800 if sign == '+' else 1900 if sign in '-YXWVU' else 2000 if sign in 'ABCDEF' else None
+    return base + _yy(v, 4) if base else None
+
+
+def _kr(v):
+    base = {1: 1900, 2: 1900, 5: 1900, 6: 1900, 3: 2000, 4: 2000, 7: 2000, 8: 2000, 9: 1800, 0: 1800}[int(v[6])]
+    return base + _yy(v, 0)
+
+
+def _cu(v):
+    c = int(v[6])
+    base = 1800 if c == 9 else 1900 if c <= 5 else 2000
+    return base + _yy(v, 0)
+
+
+def _mx(v):
+    return (1900 if v[16].isdigit() else 2000) + _yy(v, 4)
+
+
+YEAR_RULES = {
+    'stdnum.dk.cpr': _dk, 'stdnum.ee.ik': _ee, 'stdnum.lt.asmens': _ee, 'stdnum.ro.cnp': _ro, 'stdnum.si.emso': _si,
+    'stdnum.bg.egn': _bg, 'stdnum.pl.pesel': _pl, 'stdnum.lv.pvn': _lv, 'stdnum.fi.hetu': _fi, 'stdnum.kr.rrn': _kr,
+    'stdnum.cu.ni': _cu, 'stdnum.mx.curp': _mx, 'stdnum.cn.ric': lambda v: int(v[6:10]),
+}
+DATE_FIELDS['stdnum.lt.asmens'] = _ymd(1, 3, 5)
+DATE_FIELDS['stdnum.fi.hetu'] = _ymd(4, 2, 0)
